@@ -166,7 +166,9 @@ def add_params(g, it, p=0.35):
                 ps.append((nm, f"a{g.mark()}(x)"))
         r.shuffle(ps)
         roll = r.random()
-        if roll < 0.2 and it.kind == "struct":
+        if roll < 0.03 and it.kind == "struct":
+            ps.append(("update", ""))       # a bare `..` is accepted and means "no update expression"
+        elif roll < 0.2 and it.kind == "struct":
             ps.append(("update", f"k{g.mark()}()"))
         elif roll < 0.35:
             ps.append(("return", f"k{g.mark()}(@)"))
@@ -424,7 +426,43 @@ def enum_prim(g):
     return it
 
 
+def struct_mixed_nests(g):
+    """Nested counterpart structs whose form differs from the top level's, with a deeper struct only struct-level ghosts fill
+    (`child_parents(h: H as (), h.1: N)` in a field-named struct; `child_parents(1: E as {}, 1 .m: M as {})` in a tuple struct)."""
+    r = g.r
+    k = g.mark()
+    cps = r.sample(["A", "B", "m::C"], r.choice([1, 1, 2]))
+    named = g.chance(0.5)
+    it = Item("struct", "S", shape="named" if named else "tuple")
+    it.attrs = g.trait_set(cps)
+    it.meta["cps"] = cps
+    n_in = r.randint(1, 2)            # members flattened into the nested struct
+    n_plain = r.randint(0, 2)
+    if named:
+        top, deep = f"h{k}", f"h{k}.{n_in}"          # the ghost-only struct sits right after the mapped members of the tuple-form nest
+        for j in range(n_in):
+            it.fields.append(Field(f"a{j}", r.choice(LEAF_TYPES), [Instr("child", "child", container=None, path=top), Instr("map", "map", container=None, member=j, action=None)]))
+        for j in range(n_plain):
+            it.fields.insert(r.randint(0, len(it.fields)) if g.chance(0.5) else len(it.fields), Field(f"b{j}", r.choice(LEAF_TYPES)))
+        ents = [dict(path=top, ty=f"H{k}", hint="()"), dict(path=deep, ty=f"N{k}", hint=r.choice([None, "{}"]))]
+    else:
+        idx = n_plain
+        top, deep = f"{idx}", f"{idx} .m{k}"
+        for j in range(n_plain):
+            it.fields.append(Field(None, r.choice(LEAF_TYPES)))
+        for j in range(n_in):
+            it.fields.append(Field(None, r.choice(LEAF_TYPES), [Instr("child", "child", container=None, path=top), Instr("map", "map", container=None, member=f"s{k}_{j}", action=None)]))
+        ents = [dict(path=top, ty=f"E{k}", hint="{}"), dict(path=deep, ty=f"M{k}", hint="{}")]     # its members are given by name (the ghosts), so it is declared field-named
+    r.shuffle(ents)
+    it.attrs.append(Instr("child_parents", "child_parents", container=None, entries=ents))
+    gh = [dict(path=deep, ident=f"g{g.mark()}", action=f"k{g.mark()}()") for _ in range(r.randint(1, 2))]
+    it.attrs.append(Instr("ghosts", "ghosts", container=None, entries=gh))
+    r.shuffle(it.attrs)
+    return it
+
+
 PROFILES = {
+    "struct_mixed_nests": struct_mixed_nests,
     "struct_basic": struct_basic,
     "struct_children": struct_children,
     "struct_parents": struct_parents,
@@ -434,7 +472,8 @@ PROFILES = {
 
 
 def gen(g, profile=None):
-    profile = profile or g.pick(["struct_basic", "struct_basic", "struct_children", "struct_parents", "enum_basic", "enum_basic", "enum_prim"])
+    profile = profile or g.pick(["struct_basic", "struct_basic", "struct_basic", "struct_children", "struct_children", "struct_parents", "struct_parents", "enum_basic", "enum_basic", "enum_basic", "enum_basic",
+                                 "enum_prim", "enum_prim", "struct_mixed_nests"])
     it = PROFILES[profile](g)
     it.meta["profile"] = profile
     if getattr(g, "allow_unknown_p", 0.0) and g.chance(g.allow_unknown_p):
